@@ -53,7 +53,11 @@ def observe(sc):
     from usim import Concurrent
     kids, items, incl, bare = sc['kids'], sc.get('items', []), sc.get('incl', False), sc.get('bare', False)
     err = Concurrent(*[build(k) for k in kids])
-    handler = Concurrent if bare else Concurrent[tuple(item(h) for h in items) + ((...,) if incl else ())]
+    try:
+        handler = Concurrent if bare else Concurrent[tuple(item(h) for h in items) + ((...,) if incl else ())]
+    except Exception:        # the library refuses to build the handler: reported, judged by the monitor
+        return {'e': 'm', 'kids': kids, 'items': items, 'incl': incl, 'bare': bare, 'rejected': True,
+                'isinst': False, 'issub': False, 'exc': False, 'ident': False, 'flat': []}
     try:
         try:
             raise err
